@@ -237,6 +237,18 @@ func (s *Store) ReplaceSP(sp SPSpec) error {
 	return nil
 }
 
+// RemoveSP deregisters a service provider: from now on the storage does not know the entity (lookups fail like for any
+// other unknown entity id).
+func (s *Store) RemoveSP(entityID string) {
+	s.mu.Lock()
+	defer s.mu.Unlock()
+	if sp, ok := s.spSpecs[entityID]; ok {
+		delete(s.apps, sp.AppID)
+	}
+	delete(s.sps, entityID)
+	delete(s.spSpecs, entityID)
+}
+
 // --- provider.Storage ---
 
 func (s *Store) Health(context.Context) error {
